@@ -913,32 +913,103 @@ shard (it may be sent to ANY shard of the node), or they name the same shard. -/
 def rawSame (sharded : Nat → Bool) (a b : RawTarget) : Prop :=
   a.1 = b.1 ∧ (sharded a.1 = false ∨ a.2 = none ∨ b.2 = none ∨ a.2 = b.2)
 
-/-- **The hypothesis on a load-balancing policy**: `fallback` names no two entries that are the same target, and no
-entry that is the same target as the picked one — except exact copies of the picked entry, which `Plan` skips. -/
+/-- **The hypothesis on a load-balancing policy** (exact: `lbRaw_pairwise_iff`).  With the policy's first choice
+`policyHead` (the picked entry, or the first fallback entry when `pick` returns `None`) and `policyKept` (the fallback
+after it, minus the exact copies of the first choice, which `Plan` skips): the kept fallback names no two entries that
+are the same target, and none that is the same target as the first choice. -/
 structure PolicyDistinct (sharded : Nat → Bool) (pick : Option RawTarget) (fallback : List RawTarget) : Prop where
-  fallback_distinct : fallback.Pairwise (fun a b => ¬ rawSame sharded a b)
-  pick_distinct : ∀ p, pick = some p → ∀ f ∈ fallback, f ≠ p → ¬ rawSame sharded p f
+  kept_distinct : (policyKept pick fallback).Pairwise (fun a b => ¬ rawSame sharded a b)
+  head_distinct : ∀ h, policyHead pick fallback = some h → ∀ f ∈ policyKept pick fallback, ¬ rawSame sharded h f
+
+private theorem lbRaw_eq (pick : Option RawTarget) (fallback : List RawTarget) :
+    lbRaw pick fallback = match policyHead pick fallback with
+      | none => []
+      | some h => h :: policyKept pick fallback := by
+  cases pick with
+  | some p =>
+    simp only [lbRaw, policyHead, policyKept]
+    congr 1
+  | none =>
+    cases fallback with
+    | nil => simp [lbRaw, policyHead]
+    | cons f rest =>
+      simp only [lbRaw, policyHead, policyKept, List.head?_cons, List.tail_cons]
+      congr 1
+
+/-- The hypothesis is exactly "the entries `Plan` takes from the policy are pairwise different targets". -/
+theorem lbRaw_pairwise_iff (sharded : Nat → Bool) (pick : Option RawTarget) (fallback : List RawTarget) :
+    PolicyDistinct sharded pick fallback ↔
+      (lbRaw pick fallback).Pairwise (fun a b => ¬ rawSame sharded a b) := by
+  rw [lbRaw_eq]
+  cases hh : policyHead pick fallback with
+  | none =>
+    simp only [List.Pairwise.nil, iff_true]
+    have hk : policyKept pick fallback = [] := by
+      cases pick with
+      | some p => simp [policyHead] at hh
+      | none =>
+        cases fallback with
+        | nil => simp [policyKept]
+        | cons f rest => simp [policyHead] at hh
+    exact ⟨by simp [hk], by intro h hhd; rw [hh] at hhd; cases hhd⟩
+  | some h =>
+    simp only [List.pairwise_cons]
+    constructor
+    · intro hp; exact ⟨hp.head_distinct h hh, hp.kept_distinct⟩
+    · intro hp
+      exact ⟨hp.2, by intro h' hh'; rw [hh] at hh'; cases hh'; exact hp.1⟩
 
 theorem lbRaw_pairwise (sharded : Nat → Bool) (pick : Option RawTarget) (fallback : List RawTarget)
     (h : PolicyDistinct sharded pick fallback) :
-    (lbRaw pick fallback).Pairwise (fun a b => ¬ rawSame sharded a b) := by
-  cases pick with
-  | some p =>
-    simp only [lbRaw, List.pairwise_cons]
-    refine ⟨?_, h.fallback_distinct.sublist List.filter_sublist⟩
-    intro f hf
-    have hm := List.mem_filter.mp hf
-    exact h.pick_distinct p rfl f hm.1 (by simpa using hm.2)
-  | none =>
-    cases fallback with
-    | nil => simp [lbRaw]
-    | cons f rest =>
-      have hd := h.fallback_distinct
-      simp only [List.pairwise_cons] at hd
-      simp only [lbRaw, List.pairwise_cons]
-      refine ⟨?_, hd.2.sublist List.filter_sublist⟩
-      intro x hx
-      exact hd.1 x (List.mem_filter.mp hx).1
+    (lbRaw pick fallback).Pairwise (fun a b => ¬ rawSame sharded a b) :=
+  (lbRaw_pairwise_iff sharded pick fallback).mp h
+
+theorem rawSameB_iff (sharded : Nat → Bool) (a b : RawTarget) : rawSameB sharded a b = true ↔ rawSame sharded a b := by
+  simp only [rawSameB, rawSame, Bool.and_eq_true, Bool.or_eq_true, beq_iff_eq, Bool.not_eq_eq_eq_not, Bool.not_true,
+    Option.isNone_iff_eq_none]
+  constructor
+  · rintro ⟨h1, h2⟩
+    refine ⟨h1, ?_⟩
+    rcases h2 with ((h | h) | h) | h
+    · exact Or.inl h
+    · exact Or.inr (Or.inl h)
+    · exact Or.inr (Or.inr (Or.inl h))
+    · exact Or.inr (Or.inr (Or.inr h))
+  · rintro ⟨h1, h2⟩
+    refine ⟨h1, ?_⟩
+    rcases h2 with h | h | h | h
+    · exact Or.inl (Or.inl (Or.inl h))
+    · exact Or.inl (Or.inl (Or.inr h))
+    · exact Or.inl (Or.inr h)
+    · exact Or.inr h
+
+private theorem pairwiseB_iff {β : Type} (r : β → β → Bool) (l : List β) :
+    pairwiseB r l = true ↔ l.Pairwise (fun a b => r a b = true) := by
+  induction l with
+  | nil => simp [pairwiseB]
+  | cons x xs ih => simp [pairwiseB, List.pairwise_cons, ih, List.all_eq_true]
+
+/-- The hypothesis is decidable: `policyDistinctB` (what the model driver prints for a scripted policy) decides it. -/
+theorem policyDistinctB_iff (sharded : Nat → Bool) (pick : Option RawTarget) (fallback : List RawTarget) :
+    policyDistinctB sharded pick fallback = true ↔ PolicyDistinct sharded pick fallback := by
+  have hneg : ∀ a b, (!rawSameB sharded a b) = true ↔ ¬ rawSame sharded a b := by
+    intro a b
+    rw [← rawSameB_iff]; simp
+  simp only [policyDistinctB, Bool.and_eq_true, pairwiseB_iff]
+  constructor
+  · intro h
+    refine ⟨h.1.imp (fun hab => (hneg _ _).mp hab), ?_⟩
+    intro hd hhd f hf
+    rw [hhd] at h
+    exact (hneg _ _).mp (List.all_eq_true.mp h.2 f hf)
+  · intro h
+    refine ⟨h.kept_distinct.imp (fun hab => (hneg _ _).mpr hab), ?_⟩
+    cases hhd : policyHead pick fallback with
+    | none => rfl
+    | some hd =>
+      simp only [List.all_eq_true]
+      intro f hf
+      exact (hneg _ _).mpr (h.head_distinct hd hhd f hf)
 
 private theorem mem_resolveAll (raw : List RawTarget) (ρ : List Nat) (x : Nat × Nat) (h : x ∈ resolveAll raw ρ) :
     ∃ e ∈ raw, e.1 = x.1 ∧ ∀ s, e.2 = some s → s = x.2 := by
@@ -1031,15 +1102,23 @@ theorem lbPlan_nodup (sharded : Nat → Bool) (pick : Option RawTarget) (fallbac
 /-- The single-target policy satisfies the hypothesis (its fallback is empty) … -/
 theorem singleTarget_distinct (sharded : Nat → Bool) (found : Bool) (node : Nat) (shard : Option Nat) :
     PolicyDistinct sharded (singleTargetPick found node shard) singleTargetFallback :=
-  ⟨by simp [singleTargetFallback], by intro p _ f hf; simp [singleTargetFallback] at hf⟩
+  ⟨by cases found <;> simp [policyKept, singleTargetFallback, singleTargetPick],
+   by intro p _ f hf; cases found <;> simp [policyKept, singleTargetFallback, singleTargetPick] at hf⟩
 
 /-- … its plan is the one configured target, or empty when the node is unknown … -/
 theorem singleTarget_plan (found : Bool) (node : Nat) (shard : Option Nat) :
     lbRaw (singleTargetPick found node shard) singleTargetFallback = if found then [(node, shard)] else [] := by
   cases found <;> simp [lbRaw, singleTargetPick, singleTargetFallback]
 
-/-- … so a request routed by it (paged or not) never has two executions on the same target: the second execution
-finds the plan exhausted. -/
+/-- … so a request routed by it (paged or not) never has two executions on the same RESOLVED target (`canonTarget`:
+node, and shard on a sharded node).  For an unpaged request and for the first page the plan is that one target, so the
+second execution finds the plan exhausted; the same holds on later pages when the coordinator is filtered out of the
+load-balancing plan (`singleTarget_paged_plan_one`).  It does NOT hold for a shard-less single target on a SHARDED node
+on pages ≥ 1: the stable coordinator `(n, its shard)` is followed by `(n, freshly drawn shard)`, which the pager's filter
+keeps unless the two shards coincide — two different resolved targets on one node (`singleTarget_paged_shardless_two`).
+That is the difference between the two notions: `rawSame` judges what a POLICY yields, before shards are drawn (a
+shard-less entry may land on any shard, so the policy must not name the node again); `canonTarget` judges resolved
+plan entries, where a shard-less entry has become one concrete shard, and the pager compares resolved entries. -/
 theorem distinct_targets_single_target (sharded : Nat → Bool) (found : Bool) (node : Nat) (shard : Option Nat)
     (ρ : List Nat) (coord : Option (Nat × Option Nat))
     (hcoord : ∀ cn cs, coord = some (cn, cs) → (cs = none ↔ sharded cn = false))
@@ -1050,6 +1129,19 @@ theorem distinct_targets_single_target (sharded : Nat → Bool) (found : Bool) (
   distinct_targets_up_to _ idem pol dl _
     (pagerPlan_nodup_of_targets sharded coord _
       (lbPlan_nodup sharded _ _ ρ (singleTarget_distinct sharded found node shard)) hcoord) evs
+
+/-- On later pages the single-target plan is still one target when the configured shard is the coordinator's, or the
+coordinator is unsharded. -/
+theorem singleTarget_paged_plan_one (node : Nat) (s : Nat) (cs : Option Nat) (h : cs = none ∨ cs = some s) :
+    pagerPlan (some (node, cs)) [(node, s)] = [(node, cs.getD 2137)] := by
+  rcases h with rfl | rfl <;> simp [pagerPlan]
+
+/-- … and is two targets on one node when the freshly drawn shard differs from the coordinator's. -/
+theorem singleTarget_paged_shardless_two (node cs r : Nat) (h : cs ≠ r) :
+    pagerPlan (some (node, some cs)) (resolveAll [(node, none)] [r]) = [(node, cs), (node, r)] := by
+  simp [pagerPlan, resolveAll, h]
+
+example : pagerPlan (some (5, some 1)) [(5, 0)] = [(5, 1), (5, 0)] := by decide
 
 /-- For any policy satisfying the hypothesis, paged (`coord`) or not (`coord = none`). -/
 theorem distinct_targets_of_policy (sharded : Nat → Bool) (pick : Option RawTarget) (fallback : List RawTarget)
@@ -1074,7 +1166,7 @@ example : lbRaw (some (5, some 1)) [(5, none)] = [(5, some 1), (5, none)] := by 
 example : resolveAll (lbRaw (some (5, some 1)) [(5, none)]) [1] = [(5, 1), (5, 1)] := by decide
 example : ¬ PolicyDistinct (fun _ => true) (some (5, some 1)) [(5, none)] := by
   intro h
-  exact h.pick_distinct (5, some 1) rfl (5, none) (by simp) (by decide) ⟨rfl, Or.inr (Or.inr (Or.inl rfl))⟩
+  exact h.head_distinct (5, some 1) rfl (5, none) (by decide) ⟨rfl, Or.inr (Or.inr (Or.inl rfl))⟩
 -- an exact copy of the picked entry is skipped
 example : lbRaw (some (5, some 1)) [(5, some 1), (6, none)] = [(5, some 1), (6, none)] := by decide
 
